@@ -10,6 +10,7 @@ from . import common
 from . import c16_lookalikes as LA
 from .common import Check, sx
 from .evutil import BASE, dt, mk_event, pulse_us, us_of_dt, us_of_td
+from .txhist import strict_eq
 
 RULE = ("boundary corpus (all lists of <= 3 events over a 7-letter data alphabet with missing keys, list values and "
         "equal values under different keys, x every key list over {a,b,c} of length 0..2 incl. repeats; all tie "
@@ -238,7 +239,7 @@ def run_case(case, I, lab, ck):
     """Runs the implementation on fresh objects.  Returns (wire, impl_view, oracle_msg, nontrivial, canon)."""
     kind = case[0]
     evs = case[-1]
-    objs = mk(evs, I.Event)
+    objs = I.objects(evs) if getattr(I, "objects", None) else mk(evs, I.Event)      # round 3: live objects of a call sequence
     snap = snapshot(objs)
     n_in = len(objs)
     inview = [view(o, lab) for o in objs]
@@ -277,7 +278,8 @@ def run_case(case, I, lab, ck):
                         bad = f"merge sums: output duration {o.duration} is not the sum of its group {[m.duration for m in members]}"
                     elif o.timestamp != first.timestamp or o.id is not None:
                         bad = "merge first: output does not carry the first member's timestamp / id None"
-                    elif o.data != want or [lab.v(o.data[k]) for k in want] != [lab.v(x) for x in want.values()]:
+                    elif o.data != want or [lab.v(o.data[k]) for k in want] != [lab.v(x) for x in want.values()] \
+                            or not strict_eq(o.data, want):       # typed: the very values of the first member (True is not 1)
                         bad = f"merge data: output data {o.data} is not the selected keys of the group's first event {want}"
                     elif id(o) in idx:
                         bad = "merge: an input event object is returned as a group"
@@ -305,6 +307,8 @@ def run_case(case, I, lab, ck):
                 bad = "chunk with no subevents"
             elif any(key not in s.data or not (s.data[key] == c.data[key]) for s in subs):
                 bad = f"chunk value: subevents do not all carry the chunk's value {c.data[key]!r}"
+            elif not strict_eq(c.data[key], subs[0].data[key]):
+                bad = f"chunk value: the chunk's value {c.data[key]!r} is not the very value of its first subevent {subs[0].data[key]!r}"
             elif c.duration != sum((s.duration for s in subs), timedelta(0)):
                 bad = f"chunk sums: chunk duration {c.duration} is not the sum of its subevents"
             elif c.timestamp != subs[0].timestamp:
@@ -362,7 +366,7 @@ def run_case(case, I, lab, ck):
         outview = exact if dev <= 1 else got
         nontrivial = n_in >= 2
     elif kind == "concat":
-        objs1 = mk(case[1], I.Event)
+        objs1 = I.objects(case[1]) if getattr(I, "objects", None) else mk(case[1], I.Event)
         snap1 = snapshot(objs1)
         wire = [6, [view(o, lab) for o in objs1], inview]
         out = I.s.concat(objs1, objs)
@@ -487,6 +491,8 @@ def main(argv=None):
             d = describe(case)
             d["impl_output_view"] = outview
             ck.failing_input("C16:" + bad.split(":")[0], bad, d)
+    from . import c16_hist          # round 3: the query layer, call sequences on live objects, >= 10 001 events
+    c16_hist.run(ck, sys.modules[__name__], I, lab, have_driver, cases)
     reserved_key_probe(I, ck)
     sum_float_probe(I, ck)
     if have_driver:
